@@ -79,23 +79,26 @@ def layerH (g : G) (i : Int) : Rat := (g.layers.getD i.toNat default).h
 
 def setPts (g : G) (e : Nat) (p : List Pt) : G := g.modEdge e fun ed => { ed with pts := p }
 
-def routeStraight (g : G) (routes : List (Nat × List Nat)) : M G :=
-  routes.foldlM (fun g (e, ns) => do
-    if g.isFlat e then throw "flat edge (phase5/flat.go has no exact model)"
-    pure (setPts g e (straight g ns.head! ns.getLast!))) g
+def straightStep (g : G) (r : Nat × List Nat) : M G := do
+  if g.isFlat r.1 then throw "flat edge (phase5/flat.go has no exact model)"
+  pure (setPts g r.1 (straight g r.2.head! r.2.getLast!))
+
+def routeStraight (g : G) (routes : List (Nat × List Nat)) : M G := routes.foldlM straightStep g
 
 def nonTerminalPoint (g : G) (n : Nat) : M Pt := do
   let nd := g.node n
   if !nd.virt then throw "panic:routing: bend point on non-virtual node"
   pure (nd.x + nd.w / 2, nd.y + layerH g nd.layer / 2)
 
-def routePolyline (g : G) (routes : List (Nat × List Nat)) : M G :=
-  routes.foldlM (fun g (e, ns) => do
-    if g.isFlat e then throw "flat edge (phase5/flat.go has no exact model)"
-    if ns.length == 2 then return setPts g e (straight g ns.head! ns.getLast!)
-    let mids ← (ns.tail.dropLast).mapM (nonTerminalPoint g)
+def polylineStep (g : G) (r : Nat × List Nat) : M G :=
+  if g.isFlat r.1 then throw "flat edge (phase5/flat.go has no exact model)"
+  else if r.2.length == 2 then pure (setPts g r.1 (straight g r.2.head! r.2.getLast!))
+  else do
+    let mids ← (r.2.tail.dropLast).mapM (nonTerminalPoint g)
     -- `r.Points = append(r.Points, …)`: appended to whatever the edge already holds
-    pure (setPts g e ((g.edge e).pts ++ [startPoint g ns.head!] ++ mids ++ [endPoint g ns.getLast!]))) g
+    pure (setPts g r.1 ((g.edge r.1).pts ++ [startPoint g r.2.head!] ++ mids ++ [endPoint g r.2.getLast!]))
+
+def routePolyline (g : G) (routes : List (Nat × List Nat)) : M G := routes.foldlM polylineStep g
 
 /-- the 4-point group the Ortho router emits between two consecutive chain nodes -/
 def orthoGroup (g : G) (ls layerh : Rat) (a b : Nat) : List Pt :=
@@ -110,15 +113,16 @@ def orthoPoints (g : G) (ls layerh : Rat) : List Nat → List Pt
   | a :: b :: rest => orthoGroup g ls layerh a b ++ orthoPoints g ls layerh (b :: rest)
   | _ => []
 
-def routeOrtho (ls : Rat) (g : G) (routes : List (Nat × List Nat)) : M G :=
-  routes.foldlM (fun g (e, ns) => do
-    let ed := g.edge e
-    let layerh := layerH g (g.layerOf ed.src)
-    if g.isFlat e then throw "flat edge (phase5/flat.go has no exact model)"
-    let fs := g.node ed.src
-    let ts := g.node ed.dst
-    if fs.x + fs.w / 2 == ts.x + ts.w / 2 then return setPts g e (straight g ns.head! ns.getLast!)
-    pure (setPts g e ((g.edge e).pts ++ orthoPoints g ls layerh ns))) g
+def orthoStep (ls : Rat) (g : G) (r : Nat × List Nat) : M G :=
+  let ed := g.edge r.1
+  let layerh := layerH g (g.layerOf ed.src)
+  let fs := g.node ed.src
+  let ts := g.node ed.dst
+  if g.isFlat r.1 then throw "flat edge (phase5/flat.go has no exact model)"
+  else if fs.x + fs.w / 2 == ts.x + ts.w / 2 then pure (setPts g r.1 (straight g r.2.head! r.2.getLast!))
+  else pure (setPts g r.1 ((g.edge r.1).pts ++ orthoPoints g ls layerh r.2))
+
+def routeOrtho (ls : Rat) (g : G) (routes : List (Nat × List Nat)) : M G := routes.foldlM (orthoStep ls) g
 
 /-- `phase5.Alg.Process`: 0 Polyline, 1 Straight, 2 Ortho, 4 Noop -/
 def phase5 (alg : Nat) (ls : Rat) (g : G) : M G := do
